@@ -961,8 +961,9 @@ impl Driver for C17 {
         let m = tier.pick(3, 4);
         Describe {
             rule: format!(
-                "generic utils::DepOrder: every labelled digraph on 1..=4 nodes including self-loops (2^(n*n)) x every ordered non-empty sub-list of the nodes as the item slice (so reachable != all); every loop-free digraph on 5 nodes (2^20) x {} listing orders. Embedded orderers through public entry points, every digraph on 1..={m} nodes with self-loops x every listing permutation, edges realised as instances / SREF+AREF / relative placements, raw and tetris graphs additionally with every sink cell abstract-only (no layout view) and with every cell holding both an abstract and a layout view: raw DepOrder::order and Library::to_proto (cell list order), Library::from_gds (imported cell order), tetris Library::dep_order (and once more on the same library object after one more instance was added; and on the not yet placed library whose instances are placed relative to one another), tetris ProtoExporter::export, Placer::place (cell graph), and Placer::place over every functional relation graph on 1..={m} instances ((n+1)^n: chains, stars, trees, self-loops, cycles) x every listing permutation, each also with the last listed instance present but not listed in the layout (reachable only through a relation). A state is (orderer, graph, listing); non-trivial = graph has at least one edge. Oracle: reachable set by DFS, cycle by Kahn elimination; Ok order must be exactly the reachable set, duplicate-free, every node after all its dependencies; reachable cycle => Err.",
-                if tier.is_thorough() { "all 120" } else { "8 (identity, reverse, 4 rotations, one shuffle)" }
+                "generic utils::DepOrder: every labelled digraph on 1..=4 nodes including self-loops (2^(n*n)) x every ordered non-empty sub-list of the nodes as the item slice (so reachable != all); every loop-free digraph on 5 nodes (2^20) x {} listing orders. Embedded orderers through public entry points, every digraph on 1..={m} nodes with self-loops{} x every listing permutation, edges realised as instances / SREF+AREF / relative placements, raw and tetris graphs additionally with every sink cell abstract-only (no layout view) and with every cell holding both an abstract and a layout view: raw DepOrder::order and Library::to_proto (cell list order), Library::from_gds (imported cell order), tetris Library::dep_order (and once more on the same library object after one more instance was added; and on the not yet placed library whose instances are placed relative to one another), tetris ProtoExporter::export, Placer::place (cell graph), and Placer::place over every functional relation graph on 1..={m} instances ((n+1)^n: chains, stars, trees, self-loops, cycles) x every listing permutation, each also with the last listed instance present but not listed in the layout (reachable only through a relation). A state is (orderer, graph, listing); non-trivial = graph has at least one edge. Oracle: reachable set by DFS, cycle by Kahn elimination; Ok order must be exactly the reachable set, duplicate-free, every node after all its dependencies; reachable cycle => Err.",
+                if tier.is_thorough() { "all 120" } else { "8 (identity, reverse, 4 rotations, one shuffle)" },
+                if tier.is_thorough() { " and every digraph on 5 nodes without self-loops (2^20)" } else { "" }
             ),
             assumptions: vec!["Placer::place over a cell graph returns the placed library, not the cell order: only Ok/Err and the cell set are judged there; over a relation graph the placed layout lists its instances in placement order, which is judged like every other ordering".into()],
             excluded: vec!["graphs beyond 5 nodes (thorough supplement: none; depth-of-recursion behaviour on long chains is covered by a 2000-cell chain per orderer)".into()],
@@ -986,10 +987,18 @@ impl Driver for C17 {
         for part in ["R", "D", "T"] {
             for n in 1..=m {
                 let total = 1u64 << Graph::nbits(n, true);
-                let blocks = if n == 4 { 128 } else { if n == 3 { 8 } else { 1 } };
+                let blocks = if n == 4 { 128 } else if n == 3 { 8 } else { 1 };
                 let per = total / blocks;
                 for b in 0..blocks {
                     v.push(format!("{part}:{n}:1:{}:{}", b * per, (b + 1) * per));
+                }
+            }
+        }
+        if tier.is_thorough() {
+            // thorough: the embedded orderers also on every digraph on 5 nodes without self-loops (2^20) x all 120 listings
+            for part in ["R", "D", "T"] {
+                for b in 0..2048u64 {
+                    v.push(format!("{part}:5:0:{}:{}", b * 512, (b + 1) * 512));
                 }
             }
         }
